@@ -67,22 +67,56 @@ int ifdef_ignore(AsmContext *asm_context)
 
 int parse_ifdef_ignore(AsmContext *asm_context, int ignore_section)
 {
+  int ret;
+
   if (ignore_section == 1)
   {
-    if (ifdef_ignore(asm_context) == 2)
-    {
-      asm_context->assemble();
-    }
+    ret = ifdef_ignore(asm_context);
+
+    // 0: skipped up to the .endif, -1: there was no .endif.
+    if (ret != 2) { return ret; }
+
+    // The skipped branch ended in .else, so assemble up to the .endif.
+    ret = asm_context->assemble();
   }
     else
   {
-    if (asm_context->assemble() == 2)
+    ret = asm_context->assemble();
+
+    if (ret == 2)
     {
-      ifdef_ignore(asm_context);
+      // The assembled branch ended in .else, so skip up to the .endif.
+      ret = ifdef_ignore(asm_context);
+
+      if (ret == 2)
+      {
+        print_error(asm_context, "More than one .else in conditional");
+        return -1;
+      }
+
+      return ret;
     }
   }
 
-  return 0;
+  // The assembled branch ended in its .endif.
+  if (ret == 4) { return 0; }
+
+  if (ret == 2)
+  {
+    print_error(asm_context, "More than one .else in conditional");
+  }
+    else
+  if (ret == 0)
+  {
+    print_error(asm_context, "Missing endif");
+  }
+    else
+  if (ret == 3)
+  {
+    print_error(asm_context, "Unexpected .endr in conditional");
+  }
+
+  return -1;
 }
 
 int parse_ifdef(AsmContext *asm_context, int ifndef)
@@ -114,11 +148,11 @@ int parse_ifdef(AsmContext *asm_context, int ifndef)
     if (ifndef == 0) { ignore_section = 1; }
   }
 
-  parse_ifdef_ignore(asm_context, ignore_section);
+  int ret = parse_ifdef_ignore(asm_context, ignore_section);
 
   asm_context->ifdef_count--;
 
-  return 0;
+  return ret;
 }
 
 int parse_if(AsmContext *asm_context)
@@ -133,17 +167,10 @@ int parse_if(AsmContext *asm_context)
 
   if (num == -1) { return -1; }
 
-  if (num != 0)
-  {
-    parse_ifdef_ignore(asm_context, 0);
-  }
-    else
-  {
-    parse_ifdef_ignore(asm_context, 1);
-  }
+  int ret = parse_ifdef_ignore(asm_context, num != 0 ? 0 : 1);
 
   asm_context->ifdef_count--;
 
-  return 0;
+  return ret;
 }
 
